@@ -95,6 +95,20 @@ pub fn alphabet() -> Vec<Value> {
     ]
 }
 
+/// rarer operations: used in the random histories and in the exhaustive ones up to length 3
+pub fn extra_alphabet() -> Vec<Value> {
+    let with_attack = |name: &str, id: &str| json!({"k": "load", "docs": [{"name": name, "meta": {"attack": [id]}, "matches": [["$a", ".x == '1'"]], "condition": "$a"}]});
+    vec![
+        json!({"k": "load", "docs": [rule("S", &[("$s", "rule(S)")], Some("$s"))]}),                                  // depends on itself
+        json!({"k": "load", "docs": [rule("P", &[("$q", "rule(Q)")], Some("$q")), rule("Q", &[("$p", "rule(P)")], Some("$p"))]}), // a cycle in one call
+        with_attack("U1", "T\u{661}\u{662}\u{663}\u{664}"),                                                          // Arabic-Indic digits
+        with_attack("U2", "T1234.\u{ff10}\u{ff10}\u{ff11}"),                                                          // full-width digits
+        with_attack("U3", "\u{212a}1234"),                                                                             // Kelvin sign for K
+        with_attack("U4", "t1234.001"),                                                                                // valid, lower case
+        json!({"k": "load", "docs": [rule("G", &[("a", ".x == '1'")], None)]}),                                        // operand without `$`
+    ]
+}
+
 pub fn gen(tier: &str, seed: u64, out: &mut dyn FnMut(Value)) {
     let alpha = alphabet();
     let thorough = tier == "thorough";
@@ -128,6 +142,33 @@ pub fn gen(tier: &str, seed: u64, out: &mut dyn FnMut(Value)) {
             }
         }
     }
+    // the rarer operations: every history of length <= 2 over the full alphabet that uses at least one of them,
+    // then mixed into the random histories
+    let mut full = alpha.clone();
+    full.extend(extra_alphabet());
+    let na = alpha.len();
+    for i in 0..full.len() {
+        if i >= na {
+            let mut ops = vec![full[i].clone()];
+            ops.extend(tail.clone());
+            out(json!({"op": "history", "ops": ops, "tag": "rare operations, length 1..3", "nt": true}));
+        }
+        for j in 0..full.len() {
+            if i >= na || j >= na {
+                let mut ops = vec![full[i].clone(), full[j].clone()];
+                ops.extend(tail.clone());
+                out(json!({"op": "history", "ops": ops, "tag": "rare operations, length 1..3", "nt": true}));
+                if thorough {
+                    for k in 0..full.len() {
+                        let mut ops = vec![full[i].clone(), full[j].clone(), full[k].clone()];
+                        ops.extend(tail.clone());
+                        out(json!({"op": "history", "ops": ops, "tag": "rare operations, length 1..3", "nt": true}));
+                    }
+                }
+            }
+        }
+    }
+    let alpha = full;
     let mut rng = Rng::new(seed);
     let n = if thorough { 40000 } else { 3000 };
     for _ in 0..n {
